@@ -26,3 +26,70 @@ Proof.
   intros Hne Hlen. unfold valid_svg_doclist, ranges. apply group_ranges_valid; [lia|exact Hne|].
   unfold ensure_order in Hlen. rewrite app_length in Hlen. lia.
 Qed.
+
+(* T2: in a CBLC that passes valid_cblc no glyph id is indexed twice (by one strike or by two), and every indexed id
+   lies in its strike's start..end *)
+Lemma consecutive_from_spec : forall l g, consecutive_from g l = true -> l = seq g (length l).
+Proof.
+  induction l as [|x r IH]; intros g H; [reflexivity|].
+  cbn [consecutive_from] in H. apply andb_prop in H. destruct H as [Hx Hr].
+  apply Nat.eqb_eq in Hx. subst x. cbn [length seq]. f_equal. apply IH. exact Hr.
+Qed.
+
+Lemma strike_gids_in_range st x :
+  valid_cblc_strike st = true -> In x (snd st) -> fst (fst st) <= x <= snd (fst st).
+Proof.
+  destruct st as [[s e] gids]. cbn [fst snd]. unfold valid_cblc_strike. intros H Hin.
+  apply andb_prop in H. destruct H as [H Hne]. apply andb_prop in H. destruct H as [Hc Hl].
+  apply consecutive_from_spec in Hc. apply Nat.eqb_eq in Hl. rewrite Hc in Hin. apply in_seq in Hin. lia.
+Qed.
+
+Lemma strike_gids_nodup st : valid_cblc_strike st = true -> NoDup (snd st).
+Proof.
+  destruct st as [[s e] gids]. cbn [snd]. unfold valid_cblc_strike. intros H.
+  apply andb_prop in H. destruct H as [H _]. apply andb_prop in H. destruct H as [Hc _].
+  apply consecutive_from_spec in Hc. rewrite Hc. apply seq_NoDup.
+Qed.
+
+Lemma nodup_app_intro (A : Type) (l1 l2 : list A) :
+  NoDup l1 -> NoDup l2 -> (forall x, In x l1 -> In x l2 -> False) -> NoDup (l1 ++ l2).
+Proof.
+  induction l1 as [|a r IH]; intros H1 H2 Hd; [exact H2|].
+  inversion H1 as [|? ? Ha Hr]; subst. cbn [app]. constructor.
+  - intros Hin. apply in_app_or in Hin. destruct Hin as [Hin|Hin]; [contradiction|].
+    apply (Hd a); [left; reflexivity|exact Hin].
+  - apply IH; [exact Hr|exact H2|]. intros x Hx Hx2. apply (Hd x); [right; exact Hx|exact Hx2].
+Qed.
+
+Lemma strikes_apart_lower : forall strikes lo x,
+  forallb valid_cblc_strike strikes = true -> strikes_apart_from lo strikes = true ->
+  In x (concat (map snd strikes)) -> lo <= x.
+Proof.
+  induction strikes as [|st r IH]; intros lo x Hv Ha Hin; [destruct Hin|].
+  cbn [forallb] in Hv. apply andb_prop in Hv. destruct Hv as [Hst Hr].
+  cbn [strikes_apart_from] in Ha. apply andb_prop in Ha. destruct Ha as [Ha Hrest].
+  apply andb_prop in Ha. destruct Ha as [Hlo Hse]. apply Nat.leb_le in Hlo. apply Nat.leb_le in Hse.
+  cbn [map concat] in Hin. apply in_app_or in Hin. destruct Hin as [Hin|Hin].
+  - pose proof (strike_gids_in_range st x Hst Hin). lia.
+  - pose proof (IH (S (snd (fst st))) x Hr Hrest Hin). lia.
+Qed.
+
+Theorem valid_cblc_no_glyph_twice strikes n :
+  valid_cblc strikes n = true ->
+  NoDup (concat (map snd strikes)) /\
+  forall st x, In st strikes -> In x (snd st) -> fst (fst st) <= x <= snd (fst st) /\ x < n.
+Proof.
+  unfold valid_cblc. intros H. apply andb_prop in H. destruct H as [H Hap].
+  apply andb_prop in H. destruct H as [Hv Hn]. split.
+  - clear Hn. revert Hv Hap. generalize 0 as lo. induction strikes as [|st r IH]; intros lo Hv Hap; [constructor|].
+    cbn [forallb] in Hv. apply andb_prop in Hv. destruct Hv as [Hst Hr].
+    cbn [strikes_apart_from] in Hap. apply andb_prop in Hap. destruct Hap as [Ha Hrest].
+    cbn [map concat]. apply nodup_app_intro.
+    + apply strike_gids_nodup. exact Hst.
+    + apply (IH (S (snd (fst st)))); assumption.
+    + intros x Hx Hx2. pose proof (strike_gids_in_range st x Hst Hx).
+      pose proof (strikes_apart_lower r (S (snd (fst st))) x Hr Hrest Hx2). lia.
+  - intros st x Hst Hx. rewrite forallb_forall in Hv, Hn. split.
+    + apply strike_gids_in_range; auto.
+    + pose proof (strike_gids_in_range st x (Hv st Hst) Hx). specialize (Hn st Hst). apply Nat.ltb_lt in Hn. lia.
+Qed.
